@@ -72,6 +72,7 @@ def acks(cfg):
         for id in cfg['ack_ids']:
             for args in cfg['ack_args']:
                 A.append(mk('RxAck', ns=ns, id=id, args=args))
+            A.append(mk('RxAckDup', ns=ns, id=id, args=['v1']))
         A.append(mk('RxFrame', kind='hdr', ty='BINARY_ACK', ns=ns, id=1,
                     ev='', n=1))
         A.append(mk('RxFrame', kind='hdr', ty='BINARY_EVENT', ns=ns, id=7,
@@ -103,7 +104,7 @@ def enabled(cfg):
             return eio and a['ns'] in s['srvReq'] and \
                 a['ns'] not in s['srvAns'] and s['nextSid'] <= max_sid \
                 and not has_bin
-        if act in ('RxDisconnect', 'RxEvent', 'RxAck'):
+        if act in ('RxDisconnect', 'RxEvent', 'RxAck', 'RxAckDup'):
             return eio and a['ns'] in s['srvAcc'] and not has_bin
         if act == 'RxFrame':
             return eio and (a['kind'] != 'hdr' or (
